@@ -107,12 +107,22 @@ fn reference<const N: usize, const WMAX: usize>(
 }
 
 /// run `next` once and compare with the rule; also checks the chunk bytes, the
-/// rest of the buffer and that the scan offset is reset at a boundary
+/// rest of the buffer, that the scan offset is reset at a boundary -- and the
+/// POST-STATE: the scan offset after a None is the buffer length, and the
+/// hasher is field-for-field the hasher `reference` after being fed (through
+/// the real init/input, by `feed_ref`) exactly the bytes the rule says are
+/// hashed up to the boundary / the end of the buffer.  This closes the
+/// induction: every step starts from a state M and must end in a state M (a
+/// chunker that feeds a byte twice, or skips one, across a refill is caught
+/// here even when this call's own result is still right).
 fn check_next<H: RollingHash, const N: usize>(
     c: &mut RollingHashChunker<H>,
     data: &[u8; N],
     len: usize,
     want: Option<usize>,
+    mut reference: H,
+    feed_ref: impl Fn(&mut H, usize),
+    same: fn(&H, &H) -> bool,
 ) {
     let mut buf = BytesMut::with_capacity(N);
     buf.extend_from_slice(&data[..len]);
@@ -120,6 +130,9 @@ fn check_next<H: RollingHash, const N: usize>(
     match (&got, want) {
         (None, None) => {
             assert!(buf.len() == len);
+            assert!(c.offset == len, "a call that returns None must have scanned its whole buffer");
+            feed_ref(&mut reference, len);
+            assert!(same(&c.hasher, &reference), "hasher state after a refill differs from feeding exactly the hashed bytes once");
         }
         (Some(ch), Some(e)) => {
             assert!(ch.len() == e);
@@ -134,6 +147,8 @@ fn check_next<H: RollingHash, const N: usize>(
                 }
                 j += 1;
             }
+            feed_ref(&mut reference, e);
+            assert!(same(&c.hasher, &reference), "hasher state at the boundary differs from feeding exactly the hashed bytes once");
         }
         _ => {
             assert!(false, "chunk boundary differs from the rolling-hash rule");
@@ -143,6 +158,22 @@ fn check_next<H: RollingHash, const N: usize>(
     kani::cover!(want.is_none() && len > 0);
     std::mem::forget(got);
     std::mem::forget(buf);
+    std::mem::forget(reference);
+}
+/// feed `h` the bytes data[from..upto) that the rule hashes: positions < w of a fresh BuzHash stream (priming) and
+/// positions >= fs
+fn feed_range<H: RollingHash, const N: usize>(h: &mut H, data: &[u8; N], from: usize, upto: usize, prime_below: usize, fs: usize) {
+    let mut j = 0;
+    while j < N {
+        if j >= from && j < upto && (j < prime_below || j >= fs) {
+            if !h.init_done() {
+                h.init(data[j]);
+            } else {
+                h.input(data[j]);
+            }
+        }
+        j += 1;
+    }
 }
 
 // ---------------------------------------------------------------------------
@@ -204,7 +235,9 @@ fn first_chunk_rollsum<const N: usize, const WMAX: usize>(maxmax: usize, bitsmax
     kani::cover!(matches!(want, Some(e) if e == cfg.max && cfg.max > cfg.min)); // cut at max
     kani::cover!(cfg.min > cfg.w + 1); // skip-ahead path taken
     kani::cover!(cfg.min < cfg.w);
-    check_next(&mut c, &data, len, want);
+    let hil = if cfg.min >= cfg.w { cfg.min - cfg.w } else { 0 };
+    let fs = if hil > 0 { hil - 1 } else { 0 };
+    check_next(&mut c, &data, len, want, RollSum::new(cfg.w), |h: &mut RollSum, upto| feed_range(h, &data, 0, upto, 0, fs), rs::same_window);
     std::mem::forget(c);
 }
 fn first_chunk_buzhash<const N: usize, const WMAX: usize>(cfg: Cfg) {
@@ -218,7 +251,11 @@ fn first_chunk_buzhash<const N: usize, const WMAX: usize>(cfg: Cfg) {
     let tv = lookup(&table, &data);
     let want = reference::<N, WMAX>(Algo::BuzHash, true, &cfg, mask, &[0u8; WMAX], &data, &[0u32; WMAX], &tv, len);
     kani::cover!(data[cfg.w] == 0 && data[cfg.w - 1] != 0 && len > cfg.w + 1); // 0x00 right after priming
-    check_next(&mut c, &data, len, want);
+    let hil = if cfg.min >= cfg.w { cfg.min - cfg.w } else { 0 };
+    let fs0 = if hil > 0 { hil - 1 } else { 0 };
+    let fs = if fs0 > cfg.w { fs0 } else { cfg.w };
+    let w = cfg.w;
+    check_next(&mut c, &data, len, want, mk_small(cfg.w, &table), |h: &mut BuzHash, upto| feed_range(h, &data, 0, upto, w, fs), bz::same_fields);
     std::mem::forget(c);
 }
 #[kani::proof]
@@ -313,6 +350,15 @@ fn mid_chunk_rollsum<const N: usize, const WMAX: usize>(maxmax: usize, bitsmax: 
         }
         k += 1;
     }
+    // an identical second hasher is the reference for the post-state
+    let mut refh = RollSum::new(cfg.w);
+    let mut k = 0;
+    while k < WMAX {
+        if k + cfg.w >= WMAX {
+            refh.input(win[k]);
+        }
+        k += 1;
+    }
     let mut c = RollingHashChunker::new(hasher, &fc);
     c.offset = o;
     let want = reference::<N, WMAX>(Algo::RollSum, false, &cfg, mask, &prev, &data, &[0u32; WMAX], &[0u32; N], len);
@@ -320,7 +366,8 @@ fn mid_chunk_rollsum<const N: usize, const WMAX: usize>(maxmax: usize, bitsmax: 
     kani::cover!(o > 0 && o < fs); // refill while still skipping towards min
     kani::cover!(o > fs && o + 1 < cfg.min); // refill while feeding the pre-min window
     kani::cover!(o >= cfg.min && o > 0 && matches!(want, Some(e) if e > o + 1 && e < cfg.max)); // refill mid-scan, boundary by hash later
-    check_next(&mut c, &data, len, want);
+    let from = if o > fs { o } else { fs };
+    check_next(&mut c, &data, len, want, refh, |h: &mut RollSum, upto| feed_range(h, &data, from, upto, 0, fs), rs::same_window);
     std::mem::forget(c);
 }
 fn mid_chunk_buzhash<const N: usize, const WMAX: usize>(cfg: Cfg) {
@@ -349,18 +396,30 @@ fn mid_chunk_buzhash<const N: usize, const WMAX: usize>(cfg: Cfg) {
         k += 1;
     }
     assert!(hasher.init_done());
+    let refh = hasher.clone();
     let mut c = RollingHashChunker::new(hasher, &fc);
     c.offset = o;
     let want = reference::<N, WMAX>(Algo::BuzHash, false, &cfg, mask, &prev, &data, &tvp, &tv, len);
     kani::cover!(o == 0 && want.is_some());
     kani::cover!(o > 0 && want.is_some());
-    check_next(&mut c, &data, len, want);
+    let from = if o > fs { o } else { fs };
+    check_next(&mut c, &data, len, want, refh, |h: &mut BuzHash, upto| feed_range(h, &data, from, upto, 0, fs), bz::same_fields);
     std::mem::forget(c);
 }
 #[kani::proof]
 #[kani::unwind(10)]
 fn c09_rule_mid_chunk_rollsum() {
     mid_chunk_rollsum::<7, 3>(6, 3);
+}
+#[kani::proof]
+#[kani::unwind(8)]
+fn c09_rule_mid_chunk_rollsum_small() {
+    mid_chunk_rollsum::<6, 2>(5, 2);
+}
+#[kani::proof]
+#[kani::unwind(8)]
+fn c09_rule_first_chunk_rollsum_small() {
+    first_chunk_rollsum::<6, 2>(5, 2);
 }
 
 /// Fresh BuzHash stream, refill before/while/after priming: the hasher state
@@ -389,11 +448,13 @@ fn first_chunk_mid_buzhash<const N: usize, const WMAX: usize>(cfg: Cfg) {
         }
         j += 1;
     }
+    let refh = hasher.clone();
     let mut c = RollingHashChunker::new(hasher, &fc);
     c.offset = o;
     let want = reference::<N, WMAX>(Algo::BuzHash, true, &cfg, mask, &[0u8; WMAX], &data, &[0u32; WMAX], &tv, len);
     kani::cover!(o > 0 && want.is_some());
-    check_next(&mut c, &data, len, want);
+    let w = cfg.w;
+    check_next(&mut c, &data, len, want, refh, |h: &mut BuzHash, upto| feed_range(h, &data, o, upto, w, fs), bz::same_fields);
     std::mem::forget(c);
 }
 
